@@ -72,10 +72,18 @@ def oracle_recording(strategy, scitype):
         n = case["n"]
         doubles.LOG.clear()
         reg = doubles.RecordingRegressor(tag=3) if tab else doubles.RecordingTSRegressor(tag=3)
-        f = sut(make_reduction, reg, strategy=strategy, window_length=wl,
+        via = bool(case.get("wl_via_set_params"))
+        f = sut(make_reduction, reg, strategy=strategy, window_length=(wl + 2) if via else wl,
                 scitype=case["scitype_arg"] if case["scitype_arg"] == "infer" else scitype)
         if isinstance(f, Raised):
             return [unexpected(f, "make_reduction")]
+        if via:
+            # the window length is a parameter: set after construction (as a parameter search
+            # does on a clone) it is the one that counts
+            f = sut(f.set_params, window_length=wl)
+            if isinstance(f, Raised):
+                return [unexpected(f, "set_params(window_length)")]
+            ctx.label("window_length_via_set_params")
         fh_fit = gen.build_fh(steps, case["fh_kind"])
         if case.get("fh_abs"):
             # the same steps given as absolute time points
@@ -363,7 +371,7 @@ def cases(draw, strategy=None, allow_exog=True, feasible_bias=9):
         "scitype_arg": draw(st.sampled_from(["infer", "explicit"])),
         "dtype": draw(st.sampled_from(["float64", "float64", "int64"])),
         "prefit": draw(st.integers(0, 4)) == 0,
-        "revision": draw(st.sampled_from([None, None, 1, 2, 3])), "fh_abs": draw(st.integers(0, 3)) == 0,
+        "revision": draw(st.sampled_from([None, None, 1, 2, 3])), "fh_abs": draw(st.integers(0, 3)) == 0, "wl_via_set_params": draw(st.integers(0, 3)) == 0,
         "n_exog": 0,
     }
     c["n_exog"] = draw(st.integers(0, 3)) if allow_exog else 0
